@@ -1,6 +1,7 @@
 import HappyProofs.C15.Crash
 import HappyProofs.C15.Survive
 import HappyProofs.C15.Judge
+import HappyProofs.C15.Ack
 import HappyProofs.C14.LsmFinal
 /-!
 # C15 — property theorems (WAL + crash recovery)
@@ -145,6 +146,43 @@ theorem crash_spec_at_every_index (cfg : Cfg) (p : Policy) (nkeys : Nat) (ops : 
       (readsOf nkeys ((sysOf cfg oracle ops).run cfg (sched.take i)).st.crash.recover.recover.crash.recover) = none :=
   crash_spec cfg p nkeys ops oracle (sched.take i) hw h2 hd (inOrder_take ho i)
 
+/-! ### durability judged from acknowledgements (`judgeCrashAck`)
+
+`syncDoneRun` collects the operations that went on after a sync-latency yield; `syncsInOrderB` is the schedule
+hypothesis that syncs complete in sequence order (every sync costs the same latency; the engine serves equal
+times first-in first-out).  Under it nothing the clients were told exceeds `synced_up_to`
+(`sync_done_durable`, `acked_every_sync_done`, `ack_bound_le_synced` in `Ack.lean`). -/
+
+/-- the model's own crash observations satisfy the acknowledgement-based Spec predicate as well: every write
+    whose sync was seen to complete — and under `SyncEveryWrite` (`every = true`) every write that returned —
+    counts as durable, for every workload, sync policy and schedule whose syncs complete in sequence order -/
+theorem crash_spec_ack (cfg : Cfg) (p : Policy) (nkeys : Nat) (ops : List (Nat × OKind)) (oracle : List Bool)
+    (sched : List Nat) (every : Bool) (hw : cfg.wal = some p) (h2 : 2 ≤ cfg.maxLevels) (hd : DistinctPuts ops)
+    (ho : InOrder cfg (sysOf cfg oracle ops) sched) (hs : syncsInOrderB cfg (sysOf cfg oracle ops) sched = true)
+    (he : every = true → cfg.wal = some .every) :
+    judgeCrashAck every (wObsOf ops ((sysOf cfg oracle ops).run cfg sched))
+      (syncDoneRun cfg (sysOf cfg oracle ops) [] sched).2 ((sysOf cfg oracle ops).run cfg sched).st.synced
+      (readsOf nkeys ((sysOf cfg oracle ops).run cfg sched).st.crash.recover)
+      (readsOf nkeys ((sysOf cfg oracle ops).run cfg sched).st.crash.recover.recover)
+      (readsOf nkeys ((sysOf cfg oracle ops).run cfg sched).st.crash.recover.recover.crash.recover) = none := by
+  unfold judgeCrashAck
+  rw [Nat.max_eq_left (ack_bound_le_synced cfg ops oracle sched every hd hs he)]
+  exact crash_spec cfg p nkeys ops oracle sched hw h2 hd ho
+
+/-- … and so for a crash at every index `i` of the schedule -/
+theorem crash_spec_ack_at_every_index (cfg : Cfg) (p : Policy) (nkeys : Nat) (ops : List (Nat × OKind))
+    (oracle : List Bool) (sched : List Nat) (every : Bool) (hw : cfg.wal = some p) (h2 : 2 ≤ cfg.maxLevels)
+    (hd : DistinctPuts ops) (ho : InOrder cfg (sysOf cfg oracle ops) sched)
+    (hs : syncsInOrderB cfg (sysOf cfg oracle ops) sched = true) (he : every = true → cfg.wal = some .every) (i : Nat) :
+    judgeCrashAck every (wObsOf ops ((sysOf cfg oracle ops).run cfg (sched.take i)))
+      (syncDoneRun cfg (sysOf cfg oracle ops) [] (sched.take i)).2
+      ((sysOf cfg oracle ops).run cfg (sched.take i)).st.synced
+      (readsOf nkeys ((sysOf cfg oracle ops).run cfg (sched.take i)).st.crash.recover)
+      (readsOf nkeys ((sysOf cfg oracle ops).run cfg (sched.take i)).st.crash.recover.recover)
+      (readsOf nkeys ((sysOf cfg oracle ops).run cfg (sched.take i)).st.crash.recover.recover.crash.recover) = none :=
+  crash_spec_ack cfg p nkeys ops oracle (sched.take i) every hw h2 hd (inOrder_take ho i)
+    (syncsInOrderB_take sched _ hs i) he
+
 /-! ### non-vacuity -/
 
 def exSt : St :=
@@ -168,5 +206,43 @@ example : exCfg.wal = some .every ∧ 2 ≤ exCfg.maxLevels ∧ DistinctPuts exO
     1 ≤ ((sysOf exCfg [] exOps).run exCfg exSched).st.synced ∧
     ((sysOf exCfg [] exOps).run exCfg exSched).st.wal.length < ((sysOf exCfg [] exOps).run exCfg exSched).st.nextSeq - 1 := by
   refine ⟨rfl, by decide, ⟨by decide, by decide⟩, by decide, by decide, by decide⟩
+
+/-- non-vacuity of `crash_spec_ack` on the same run: syncs complete in sequence order; the syncs of operations 1, 2, 3
+    were seen to complete and these three writes returned; operation 4 is still at its sync-latency yield at the
+    crash; the acknowledgement bound is positive and equals `synced_up_to` -/
+example : syncsInOrderB exCfg (sysOf exCfg [] exOps) exSched = true ∧
+    (syncDoneRun exCfg (sysOf exCfg [] exOps) [] exSched).2 = [3, 2, 1] ∧
+    (wObsOf exOps ((sysOf exCfg [] exOps).run exCfg exSched)).map (fun w => (w.id, w.seq, w.e.isSome)) =
+      [(1, 1, true), (2, 2, true), (3, 3, true), (4, 4, false)] ∧
+    atSync ((sysOf exCfg [] exOps).run exCfg exSched) 4 = true ∧
+    ackBound true (wObsOf exOps ((sysOf exCfg [] exOps).run exCfg exSched))
+      (syncDoneRun exCfg (sysOf exCfg [] exOps) [] exSched).2 = 3 ∧
+    ((sysOf exCfg [] exOps).run exCfg exSched).st.synced = 3 := by
+  refine ⟨by decide, by decide, by decide, by decide, by decide, by decide⟩
+
+/-- two writers whose syncs overlap: operation 2 waits at its sync-latency yield while operation 1's sync completes;
+    the syncs complete in sequence order, both are in the done list, and a crash before operation 2's sync
+    completes (index 5) has only operation 1 acknowledged -/
+def exOps2 : List (Nat × OKind) := [(1, .put 0 7), (2, .put 1 9)]
+def exSched2 : List Nat := [1, 2, 1, 2, 1, 2, 1, 2, 1, 2]
+
+example : DistinctPuts exOps2 ∧ inOrderB exCfg (sysOf exCfg [] exOps2) exSched2 = true ∧
+    syncsInOrderB exCfg (sysOf exCfg [] exOps2) exSched2 = true ∧
+    atSync ((sysOf exCfg [] exOps2).run exCfg (exSched2.take 4)) 1 = true ∧
+    atSync ((sysOf exCfg [] exOps2).run exCfg (exSched2.take 4)) 2 = true ∧
+    (syncDoneRun exCfg (sysOf exCfg [] exOps2) [] (exSched2.take 5)).2 = [1] ∧
+    ((sysOf exCfg [] exOps2).run exCfg (exSched2.take 5)).st.synced = 1 ∧
+    (syncDoneRun exCfg (sysOf exCfg [] exOps2) [] exSched2).2 = [2, 1] ∧
+    ((sysOf exCfg [] exOps2).run exCfg exSched2).st.synced = 2 := by
+  refine ⟨⟨by decide, by decide⟩, by decide, by decide, by decide, by decide, by decide, by decide, by decide, by decide⟩
+
+/-- the schedule hypothesis is not idle: when operation 2's sync completes before operation 1's, `synced_up_to` goes
+    back to 1 although operation 2 (sequence number 2) was told its sync had completed — `syncsInOrderB` is false
+    and the acknowledgement bound exceeds `synced_up_to` -/
+example : syncsInOrderB exCfg (sysOf exCfg [] exOps2) [1, 2, 1, 2, 2, 1] = false ∧
+    ((sysOf exCfg [] exOps2).run exCfg [1, 2, 1, 2, 2, 1]).st.synced = 1 ∧
+    ackBound true (wObsOf exOps2 ((sysOf exCfg [] exOps2).run exCfg [1, 2, 1, 2, 2, 1]))
+      (syncDoneRun exCfg (sysOf exCfg [] exOps2) [] [1, 2, 1, 2, 2, 1]).2 = 2 := by
+  refine ⟨by decide, by decide, by decide⟩
 
 end HappyModel.C15
